@@ -101,23 +101,26 @@ fn settle(b: &Baton, n: usize, timeout: Duration) -> Result<Vec<bool>, String> {
     let mut s_count = vec![0u32; n];
     loop {
         let g = b.m.lock().unwrap();
-        let active: Vec<(usize, Option<String>)> = (0..n)
+        // (thread, tid, has it left the baton's own wait yet?)
+        let active: Vec<(usize, Option<String>, bool)> = (0..n)
             .filter(|&i| !g.done[i] && !(g.parked[i].is_some() && g.running != Some(i)))
-            .map(|i| (i, g.tids[i].clone()))
+            .map(|i| (i, g.tids[i].clone(), g.parked[i].is_none()))
             .collect();
         if active.is_empty() {
             return Ok(vec![false; n]);
         }
         drop(g);
         let mut all_blocked = true;
-        for (i, tid) in &active {
-            let st = tid.as_deref().and_then(thread_state);
+        for (i, tid, left_park) in &active {
+            // A thread that was handed the baton but has not woken up from the baton's own
+            // condition wait yet is also "sleeping": it must not be taken for blocked.
+            let st = if *left_park { tid.as_deref().and_then(thread_state) } else { None };
             if st == Some('S') {
                 s_count[*i] += 1;
             } else {
                 s_count[*i] = 0;
             }
-            if s_count[*i] < 4 {
+            if s_count[*i] < 6 {
                 all_blocked = false;
             }
         }
@@ -125,7 +128,7 @@ fn settle(b: &Baton, n: usize, timeout: Duration) -> Result<Vec<bool>, String> {
             let mut g = b.m.lock().unwrap();
             let mut blocked = vec![false; n];
             let mut still = true;
-            for (i, _) in &active {
+            for (i, _, _) in &active {
                 if !g.done[*i] && !(g.parked[*i].is_some() && g.running != Some(*i)) {
                     blocked[*i] = true;
                 } else {
